@@ -260,7 +260,7 @@ def run(ctx):
         # leaves are appended after the inner nodes, in sorted pdf order, and referenced by
         # binary_search position + nodes.len()
         txt = show(eb.at(None).local(0))
-        calls = [cm.callee_name(t["callee"]) for bb, t in ct.calls() if t["callee"]["k"] == "fndef"]
+        calls = [cm.callee_name(t["callee"]) for bd_ in [ct] + list(p.nested(ct.path)) for bb, t in bd_.calls() if t["callee"]["k"] == "fndef"]
         if any(c.endswith("sort_unstable") or c.endswith("::sort") for c in calls) and any(c.endswith("binary_search") for c in calls):
             ctx.ok("C04-R2", "leaf ids are sorted once and located by binary_search (+ nodes.len())", ct.loc())
         else:
